@@ -19,3 +19,8 @@ package prelude
 //@   ensures @isDoneChan(result) && @doneCtx(result) == recv
 
 //@ recv struct{}: modifies ghost.ctxDone; (forall c ref :: c in old(ghost.ctxDone) ==> c in ghost.ctxDone) && (@isDoneChan(ch) ==> @doneCtx(ch) in ghost.ctxDone)
+
+// encoding/binary: big-endian decoding is a function of the 8 bytes.
+//@ spec func be64(b []byte) int
+//@ assume func encoding/binary.bigEndian.Uint64
+//@   ensures result == @be64(arg0)
